@@ -73,14 +73,10 @@ pub fn check(base: &str, marked: &str, w: usize, cx: &mut Cx) {
         return;
     }
     let d = dom::parse(marked.as_bytes());
-    let target = (0..d.nodes.len()).find(|&i| d.attr(i, "id") == Some("F") || (d.is_html(i, "a") && d.attr(i, "name") == Some("F")));
-    let Some(target) = target else { return };
-    let tag = d.elem(target).map(|e| e.0.to_string()).unwrap_or_default();
-    let (before, inside) = position(&d, target);
     let table = d.has_elem("table");
     // linearise
     let mut count = 0usize;
-    let mut marks: Vec<(usize, usize)> = vec![]; // (tokens before, line)
+    let mut marks: Vec<(String, usize, usize)> = vec![]; // (name, tokens before, line)
     let mut tok_line: Vec<usize> = vec![]; // line of the k-th token
     for (li, l) in lines.iter().enumerate() {
         for p in l {
@@ -93,44 +89,60 @@ pub fn check(base: &str, marked: &str, w: usize, cx: &mut Cx) {
                         }
                     }
                 }
-                Piece::Frag(f) => {
-                    if f == "F" {
-                        marks.push((count, li));
+                Piece::Frag(f) => marks.push((f.clone(), count, li)),
+            }
+        }
+    }
+    let targets: Vec<(String, usize)> = (0..d.nodes.len())
+        .filter_map(|i| {
+            let name = d.attr(i, "id").or_else(|| if d.is_html(i, "a") { d.attr(i, "name") } else { None })?;
+            Some((name.to_string(), i))
+        })
+        .collect();
+    for (name, _, _) in &marks {
+        if !targets.iter().any(|(n, _)| n == name) {
+            fail(cx, "a marker with an unknown name appeared", json!(name));
+            return;
+        }
+    }
+    let mut any_visible = false;
+    for (name, target) in &targets {
+        let tag = d.elem(*target).map(|e| e.0.to_string()).unwrap_or_default();
+        let (before, inside) = position(&d, *target);
+        let mine: Vec<&(String, usize, usize)> = marks.iter().filter(|m| &m.0 == name).collect();
+        if inside > 0 {
+            any_visible = true;
+            if mine.len() != 1 {
+                fail(cx, &format!("<{tag}>: {} markers for an element with visible text{}", mine.len(), if targets.len() > 1 { " (several ids in the document)" } else { "" }), json!({"id": name, "lines": format!("{lines:?}")}));
+                return;
+            }
+            let (_, pos, line) = mine[0];
+            if !table {
+                if *pos != before {
+                    fail(cx, &format!("<{tag}>: marker is not between the preceding text and the element's first character (off by {})", *pos as i64 - before as i64), json!({"id": name, "tokens_before_element": before, "tokens_before_marker": pos, "lines": format!("{lines:?}")}));
+                    return;
+                }
+                // "normally immediately before it on the same line": not required by the statement
+                // (the marker may sit on the blank line that separates two blocks); measured only.
+                if *pos < tok_line.len() {
+                    if tok_line[*pos] == *line {
+                        cx.stat("marker on the line of the element's first character");
+                    } else if tok_line[*pos] > *line {
+                        cx.stat("marker on an earlier line (blank separator or forced break)");
                     } else {
-                        fail(cx, "a marker with an unknown name appeared", json!(f));
+                        fail(cx, &format!("<{tag}>: marker is on a later line than the element's first character"), json!({"id": name, "marker_line": line, "first_char_line": tok_line[*pos], "lines": format!("{lines:?}")}));
                         return;
                     }
                 }
             }
-        }
-    }
-    if inside > 0 {
-        cx.set_case_hash(h64_parts(&[marked.as_bytes(), &w.to_le_bytes()]));
-        cx.nontrivial();
-        if marks.len() != 1 {
-            fail(cx, &format!("<{tag}>: {} markers for an element with visible text", marks.len()), json!({"lines": format!("{lines:?}")}));
+        } else if mine.len() > 1 {
+            fail(cx, &format!("<{tag}>: several markers for an element without visible text"), json!({"id": name, "lines": format!("{lines:?}")}));
             return;
         }
-        let (pos, line) = marks[0];
-        if !table {
-            if pos != before {
-                fail(cx, &format!("<{tag}>: marker is not between the preceding text and the element's first character (off by {})", pos as i64 - before as i64), json!({"tokens_before_element": before, "tokens_before_marker": pos, "lines": format!("{lines:?}")}));
-                return;
-            }
-            // "normally immediately before it on the same line": not required by the statement
-            // (the marker may sit on the blank line that separates two blocks); measured only.
-            if pos < tok_line.len() {
-                if tok_line[pos] == line {
-                    cx.stat("marker on the line of the element's first character");
-                } else if tok_line[pos] > line {
-                    cx.stat("marker on an earlier line (blank separator or forced break)");
-                } else {
-                    fail(cx, &format!("<{tag}>: marker is on a later line than the element's first character"), json!({"marker_line": line, "first_char_line": tok_line[pos], "lines": format!("{lines:?}")}));
-                }
-            }
-        }
-    } else if marks.len() > 1 {
-        fail(cx, &format!("<{tag}>: several markers for an element without visible text"), json!({"lines": format!("{lines:?}")}));
+    }
+    if any_visible {
+        cx.set_case_hash(h64_parts(&[marked.as_bytes(), &w.to_le_bytes()]));
+        cx.nontrivial();
     }
 }
 
@@ -160,9 +172,32 @@ pub fn variants(doc: &[N]) -> Vec<String> {
     out
 }
 
+/// Variants with two ids (F on one element, G on another) – every ordered pair of an
+/// element and one of its descendants, and every pair of adjacent siblings' first elements.
+pub fn pair_variants(doc: &[N]) -> Vec<String> {
+    let paths = elem_paths(doc);
+    let mut out = vec![];
+    for a in &paths {
+        for b in &paths {
+            if b.len() > a.len() && b[..a.len()] == a[..] {
+                let mut d = doc.to_vec();
+                if let N::E(_, attrs, _) = node_at_mut(&mut d, a) {
+                    attrs.push(("id".into(), "F".into()));
+                }
+                if let N::E(_, attrs, _) = node_at_mut(&mut d, b) {
+                    attrs.push(("id".into(), "G".into()));
+                }
+                out.push(html(&d));
+            }
+        }
+    }
+    out
+}
+
 struct S {
     docs: Vec<Vec<N>>,
     maxw: usize,
+    pair_widths: Vec<usize>,
 }
 impl Scope for S {
     fn units(&self) -> u64 {
@@ -176,10 +211,15 @@ impl Scope for S {
                 check(&base, &v, w, cx);
             }
         }
+        for v in pair_variants(d) {
+            for &w in &self.pair_widths {
+                check(&base, &v, w, cx);
+            }
+        }
     }
     fn info(&self) -> Info {
         Info {
-            rule: "grammar documents (tables included) x every element of the document in turn carrying id=\"F\" (anchors also name=\"F\") x every width (incl. widths that hard-wrap the first word); expected position from the oracle DOM; exact position oracle for table-free documents, count oracle with tables; non-trivial = the element has visible text".into(),
+            rule: "grammar documents (tables included) x every element of the document in turn carrying id=\"F\" (anchors also name=\"F\") x every width, and every (element, descendant) pair carrying two ids x a width set, (incl. widths that hard-wrap the first word); expected position from the oracle DOM; exact position oracle for table-free documents, count oracle with tables; non-trivial = the element has visible text".into(),
             bounds: json!({"documents": self.docs.len(), "widths": format!("1..={}", self.maxw)}),
             assumptions: vec!["the statement's 'normally on the same line' is measured (stats) but not required: a marker on the blank line separating two blocks still lies between the preceding text and the element's first character".into()],
         }
@@ -190,8 +230,19 @@ impl Prop for P {
         "C14"
     }
     fn build(&self, tier: Tier) -> Box<dyn Scope> {
-        let docs = block_docs(tier.pick(2, 3), G { tables: true, pre: true, valid_only: true });
-        Box::new(S { docs, maxw: tier.pick(20, 30) })
+        let mut docs = block_docs(tier.pick(2, 3), G { tables: true, pre: true, valid_only: true });
+        // deeper chains of nested blocks (several block boundaries before the first text)
+        for extra in [
+            vec![e("div", vec![e("div", vec![e("p", vec![t("qa qb")])])])],
+            vec![e("ul", vec![e("li", vec![e("div", vec![e("p", vec![t("qa qb")])])]), e("li", vec![t("qc")])])],
+            vec![e("blockquote", vec![e("div", vec![e("ul", vec![e("li", vec![t("qa")])])])])],
+            vec![e("div", vec![e("div", vec![e("table", vec![e("tr", vec![e("td", vec![t("qa")])])])])])],
+            vec![e("p", vec![t("qz")]), e("div", vec![e("div", vec![e("div", vec![e("h3", vec![t("qa")])])])]), e("p", vec![t("qy")])],
+            vec![e("div", vec![e("blockquote", vec![e("ol", vec![e("li", vec![e("p", vec![t("qa")])])])])])],
+        ] {
+            docs.push(extra);
+        }
+        Box::new(S { docs, maxw: tier.pick(20, 30), pair_widths: tier.pick(vec![1, 3, 6, 12], vec![1, 2, 3, 5, 8, 12, 20]) })
     }
     fn replay(&self, case: &Value, cx: &mut Cx) {
         check(case["base"].as_str().unwrap_or(""), case["html"].as_str().unwrap_or(""), case["width"].as_u64().unwrap_or(1) as usize, cx);
